@@ -1,5 +1,6 @@
 /- helper lemmas for C09: the streaming PE checksum -/
 import Relic.Model.PEChecksum
+import Relic.Spec.PEChecksum
 namespace Relic.PEChecksum
 open Relic
 
@@ -56,27 +57,6 @@ theorem loop_skip (p i sum : Nat) (l : Bytes)
       intro x h1 h2 h3
       apply hx x (by omega) (by simp only [List.length_cons]; omega) (by omega)
 
-/-- shifting both the index and the checksum position -/
-theorem loop_shift (p c i sum : Nat) (l : Bytes) :
-    loop (some (p + c)) (i + c) sum l = loop (some p) i sum l := by
-  induction h : l.length using Nat.strongRecOn generalizing l i sum with
-  | _ n ihn =>
-    match l, h with
-    | [], _ => simp [loop]
-    | [x], _ => simp [loop]
-    | x :: y :: l', h =>
-      simp only [loop]
-      have hl : l'.length < n := by simp at h; omega
-      have e : ((some (p + c) : Option Nat) = some (i + c) ∨ Option.map (· + 2) (some (p + c)) = some (i + c))
-          = ((some p : Option Nat) = some i ∨ Option.map (· + 2) (some p) = some i) := by
-        simp only [Option.map_some, Option.some.injEq]
-        apply propext; omega
-      simp only [e]
-      have := ihn l'.length hl (i + 2) (fold1 sum
-        (if (some p : Option Nat) = some i ∨ Option.map (· + 2) (some p) = some i then 0 else y.toNat * 256 + x.toNat)) l' rfl
-      rw [← this]
-      congr 1; omega
-
 /-- padding commutes with prepending an even-sized write -/
 theorem pad_append (w r : Bytes) (hw : w.length % 2 = 0) :
     (if (w ++ r).length % 2 ≠ 0 then (w ++ r) ++ [0] else w ++ r) =
@@ -85,12 +65,10 @@ theorem pad_append (w r : Bytes) (hw : w.length % 2 = 0) :
   rw [this]
   split <;> simp
 
-/-- **one boundary**: an even-sized write followed by `r` is the same as writing `w ++ r` at once,
-    unless the boundary falls on the checksum field (`p = |w|`) or in its middle (`p + 2 = |w|`) -/
-theorem write_append (s : St) (w r : Bytes) (ho : s.odd = false) (hw : w.length % 2 = 0)
-    (hp : ∀ p, s.cksumPos = some p → p ≠ w.length ∧ p + 2 ≠ w.length) :
+/-- **one boundary** (fixed code): an even-sized write followed by `r` is the same as writing
+    `w ++ r` at once — no side condition -/
+theorem write_append (s : St) (w r : Bytes) (ho : s.odd = false) (hw : w.length % 2 = 0) :
     (write s w).bind (fun s1 => write s1 r) = write s (w ++ r) := by
-  have hw' : ¬ (w.length % 2 ≠ 0) := by omega
   have padw : (if w.length % 2 ≠ 0 then w ++ [0] else w) = w := by simp [hw]
   unfold write
   simp only [ho, Bool.false_eq_true, if_false, Res.bind, padw]
@@ -102,51 +80,17 @@ theorem write_append (s : St) (w r : Bytes) (ho : s.odd = false) (hw : w.length 
     rw [this]
   have hsize : ((s.size + w.length) % 4294967296 + r.length) % 4294967296
       = (s.size + (w ++ r).length) % 4294967296 := by simp; omega
-  rw [hpar, hsize]
-  generalize hr' : (if r.length % 2 ≠ 0 then r ++ [0] else r) = r'
-  have hr'len : r'.length < r.length + 2 := by
-    subst hr'; split <;> (try simp only [List.length_append, List.length_cons, List.length_nil]) <;> omega
-  have hr'par : r'.length % 2 = 0 := by
-    subst hr'; split <;> (try simp only [List.length_append, List.length_cons, List.length_nil]) <;> omega
-  cases hc : s.cksumPos with
-  | none =>
-    simp only
-    rw [loop_append none w r' 0 s.sum hw, loop_none_idx (0 + w.length) 0]
-  | some p =>
-    obtain ⟨hp1, hp2⟩ := hp p hc
-    simp only [List.length_append]
-    by_cases h1 : p > w.length
-    · -- the field lies after the boundary
-      simp only [h1, if_true]
-      have hskipw : loop (some p) 0 s.sum w = loop none 0 s.sum w :=
-        loop_skip p 0 s.sum w (by intro x _ h2 _; omega)
-      by_cases h2 : p > w.length + r.length
-      · have h3 : p - w.length > r.length := by omega
-        simp only [h2, h3, if_true]
-        rw [loop_append none w r' 0 s.sum hw, loop_none_idx (0 + w.length) 0]
-        have e : p - w.length - r.length = p - (w.length + r.length) := by omega
-        rw [e]
-      · have h3 : ¬ (p - w.length > r.length) := by omega
-        simp only [h2, h3, if_false]
-        rw [loop_append (some p) w r' 0 s.sum hw, hskipw]
-        have := loop_shift (p - w.length) w.length 0 (loop none 0 s.sum w) r'
-        have e : p - w.length + w.length = p := by omega
-        rw [e] at this
-        rw [this]
-    · -- the field lies wholly before the boundary (or is never hit: odd position)
-      have h1' : p < w.length := by omega
-      have h2 : ¬ (p > w.length + r.length) := by omega
-      simp only [h1, h2, if_false]
-      rw [loop_append (some p) w r' 0 s.sum hw]
-      have hskipr : loop (some p) (0 + w.length) (loop (some p) 0 s.sum w) r'
-          = loop none (0 + w.length) (loop (some p) 0 s.sum w) r' :=
-        loop_skip p _ _ r' (by intro x h3 _ h5; omega)
-      rw [hskipr, loop_none_idx (0 + w.length) 0]
+  have hpos : s.pos + w.length + r.length = s.pos + (w ++ r).length := by simp; omega
+  rw [hpar, hsize, hpos, loop_append s.cksumPos w _ s.pos s.sum hw]
+
+theorem write_ok (s : St) (d : Bytes) (ho : s.odd = false) :
+    ∃ s1, write s d = .ok s1 ∧ s1.odd = decide (d.length % 2 ≠ 0) ∧ s1.cksumPos = s.cksumPos := by
+  unfold write
+  simp only [ho, Bool.false_eq_true, if_false]
+  exact ⟨_, rfl, rfl, rfl⟩
 
 theorem writes_append_last (s : St) (ws : List Bytes) (last : Bytes) (ho : s.odd = false)
-    (hev : ∀ w ∈ ws, w.length % 2 = 0)
-    (hb : ∀ p, s.cksumPos = some p → ∀ k, k < ws.length →
-      (ws.take (k + 1)).flatten.length ≠ p ∧ (ws.take (k + 1)).flatten.length ≠ p + 2) :
+    (hev : ∀ w ∈ ws, w.length % 2 = 0) :
     writes s (ws ++ [last]) = write s (ws.flatten ++ last) := by
   induction ws generalizing s with
   | nil =>
@@ -154,41 +98,176 @@ theorem writes_append_last (s : St) (ws : List Bytes) (last : Bytes) (ho : s.odd
     cases write s last <;> rfl
   | cons w ws ih =>
     have hw : w.length % 2 = 0 := hev w (by simp)
-    have hp : ∀ p, s.cksumPos = some p → p ≠ w.length ∧ p + 2 ≠ w.length := by
-      intro p hc
-      have := hb p hc 0 (by simp)
-      simp at this; omega
-    have key := write_append s w (ws.flatten ++ last) ho hw hp
+    have key := write_append s w (ws.flatten ++ last) ho hw
     simp only [List.cons_append, writes, List.flatten_cons, List.append_assoc]
     rw [← key]
-    -- what the first write leaves behind
-    have hnot : ¬ (w.length % 2 ≠ 0) := by omega
-    cases h1 : write s w with
-    | ok s1 =>
-      simp only [Res.bind]
-      have hs1 : s1.odd = false ∧ (∀ q, s1.cksumPos = some q → ∃ p, s.cksumPos = some p ∧ p = q + w.length) := by
-        unfold write at h1
-        simp only [ho, Bool.false_eq_true, if_false] at h1
-        injection h1 with h1
-        subst h1
-        refine ⟨by simp [hw], ?_⟩
-        intro q hq
-        cases hc : s.cksumPos with
-        | none => simp [hc] at hq
-        | some p =>
-          simp only [hc] at hq
-          by_cases hgt : p > w.length
-          · simp only [hgt, if_true, Option.some.injEq] at hq
-            exact ⟨p, rfl, by omega⟩
-          · simp [hgt] at hq
-      apply ih s1 hs1.1 (fun x hx => hev x (by simp [hx]))
-      intro q hq k hk
-      obtain ⟨p, hc, hpq⟩ := hs1.2 q hq
-      have := hb p hc (k + 1) (by simp; omega)
-      simp only [List.take_succ_cons, List.flatten_cons, List.length_append] at this
+    obtain ⟨s1, h1, hodd, _⟩ := write_ok s w ho
+    rw [h1]
+    simp only [Res.bind]
+    apply ih s1 (by rw [hodd]; simp [hw]) (fun x hx => hev x (by simp [hx]))
+
+/-! ### the streaming loop against the declarative specification -/
+
+open Relic.Spec
+
+theorem fold1_eq_eac (s v : Nat) (hs : s < 65536) (hv : v < 65536) :
+    fold1 s v = eac (s + v) ∧ fold1 s v < 65536 := by
+  simp only [fold1, eac]
+  constructor <;> omega
+
+theorem word_lt (a b : UInt8) : a.toNat + 256 * b.toNat < 65536 := by
+  have := a.toNat_lt
+  have := b.toNat_lt
+  omega
+
+/-- no field: the loop is the carry-folded word sum -/
+theorem loop_none_spec (i s : Nat) (l : Bytes) (hl : l.length % 2 = 0) (hs : s < 65536) :
+    loop none i s l = (words16 l).foldl (fun acc w => eac (acc + w)) s := by
+  induction h : l.length using Nat.strongRecOn generalizing l i s with
+  | _ n ihn =>
+    match l, h, hl with
+    | [], _, _ => simp [loop, words16]
+    | [x], _, hl => simp at hl
+    | x :: y :: l', h, hl =>
+      have hlen : l'.length < n := by simp at h; omega
+      have hl' : l'.length % 2 = 0 := by simp at hl; omega
+      have e : ¬ ((none : Option Nat) = some i ∨ Option.map (· + 2) (none : Option Nat) = some i) := by simp
+      have hw := word_lt x y
+      obtain ⟨f1, f2⟩ := fold1_eq_eac s (y.toNat * 256 + x.toNat) hs (by omega)
+      simp only [loop, words16, List.foldl_cons, e, if_false]
+      rw [ihn l'.length hlen (i + 2) _ l' hl' f2 rfl, f1]
+      congr 2; omega
+
+/-- even field position, even start: the loop is the word sum of the bytes with the field zeroed -/
+theorem loop_spec_even (P i s : Nat) (l : Bytes) (hP : P % 2 = 0) (hi : i % 2 = 0)
+    (hl : l.length % 2 = 0) (hs : s < 65536) :
+    loop (some P) i s l = (words16 (zeroField P i l)).foldl (fun acc w => eac (acc + w)) s := by
+  induction h : l.length using Nat.strongRecOn generalizing l i s with
+  | _ n ihn =>
+    match l, h, hl with
+    | [], _, _ => simp [loop, words16, zeroField]
+    | [x], _, hl => simp at hl
+    | x :: y :: l', h, hl =>
+      have hlen : l'.length < n := by simp at h; omega
+      have hl' : l'.length % 2 = 0 := by simp at hl; omega
+      have hw := word_lt x y
+      simp only [loop, zeroField, words16, List.foldl_cons, Option.map_some, Option.some.injEq]
+      by_cases hz : P = i ∨ P + 2 = i
+      · have z1 : P ≤ i ∧ i < P + 4 := by omega
+        have z2 : P ≤ i + 1 ∧ i + 1 < P + 4 := by omega
+        obtain ⟨f1, f2⟩ := fold1_eq_eac s 0 hs (by omega)
+        simp only [hz, z1, z2, and_self, if_true]
+        rw [ihn l'.length hlen (i + 2) _ l' (by omega) hl' f2 rfl, f1]
+        simp
+      · have z1 : ¬ (P ≤ i ∧ i < P + 4) := by omega
+        have z2 : ¬ (P ≤ i + 1 ∧ i + 1 < P + 4) := by omega
+        obtain ⟨f1, f2⟩ := fold1_eq_eac s (y.toNat * 256 + x.toNat) hs (by omega)
+        simp only [hz, z1, z2, if_false]
+        rw [ihn l'.length hlen (i + 2) _ l' (by omega) hl' f2 rfl, f1]
+        congr 2; omega
+
+theorem zeroField_append (P i : Nat) (x y : Bytes) :
+    zeroField P i (x ++ y) = zeroField P i x ++ zeroField P (i + x.length) y := by
+  induction x generalizing i with
+  | nil => simp [zeroField]
+  | cons a x ih =>
+    simp only [List.cons_append, zeroField, ih, List.length_cons]
+    congr 3; omega
+
+theorem zeroField_length (P i : Nat) (x : Bytes) : (zeroField P i x).length = x.length := by
+  induction x generalizing i with
+  | nil => simp [zeroField]
+  | cons a x ih => simp [zeroField, ih]
+
+/-- zero-extending an odd final byte = appending a zero byte -/
+theorem words16_pad (x : Bytes) (hx : x.length % 2 = 1) : words16 (x ++ [0]) = words16 x := by
+  induction h : x.length using Nat.strongRecOn generalizing x with
+  | _ n ihn =>
+    match x, h, hx with
+    | [], _, hx => simp at hx
+    | [a], _, _ => simp [words16]
+    | a :: b :: x', h, hx =>
+      have hlen : x'.length < n := by simp at h; omega
+      have hx' : x'.length % 2 = 1 := by simp at hx; omega
+      simp only [List.cons_append, words16]
+      rw [ihn x'.length hlen x' hx' rfl]
+
+theorem zeroField_pad (P i : Nat) (x : Bytes) : zeroField P i (x ++ [0]) = zeroField P i x ++ [0] := by
+  rw [zeroField_append]
+  simp [zeroField]
+
+theorem wordSum_bound (ws : List Nat) (s : Nat) (hs : s < 65536) (hw : ∀ w ∈ ws, w < 65536) :
+    ws.foldl (fun acc w => eac (acc + w)) s < 65536 := by
+  induction ws generalizing s with
+  | nil => simpa using hs
+  | cons w ws ih =>
+    simp only [List.foldl_cons]
+    apply ih
+    · have := hw w (by simp)
+      unfold eac; omega
+    · intro x hx; exact hw x (by simp [hx])
+
+theorem words16_lt (l : Bytes) : ∀ w ∈ words16 l, w < 65536 := by
+  induction h : l.length using Nat.strongRecOn generalizing l with
+  | _ n ihn =>
+    match l, h with
+    | [], _ => simp [words16]
+    | [a], _ =>
+      intro w hw
+      simp [words16] at hw
+      have := a.toNat_lt
       omega
-    | err e => unfold write at h1; simp [ho] at h1
-    | panic e => unfold write at h1; simp [ho] at h1
-    | diverge => unfold write at h1; simp [ho] at h1
+    | a :: b :: l', h =>
+      intro w hw
+      simp only [words16, List.mem_cons] at hw
+      rcases hw with rfl | hw
+      · exact word_lt a b
+      · exact ihn l'.length (by simp at h; omega) l' rfl w hw
+
+/-- the padded data, seen through `words16`, is the unpadded data -/
+theorem words_of_padded (f : Bytes → Bytes) (d : Bytes)
+    (hf : ∀ x, f (x ++ [0]) = f x ++ [0]) (hlen : ∀ x, (f x).length = x.length) :
+    words16 (f (if d.length % 2 ≠ 0 then d ++ [0] else d)) = words16 (f d) := by
+  split
+  · next h => rw [hf, words16_pad _ (by rw [hlen]; omega)]
+  · rfl
+
+/-- one-shot write from a fresh state with an even field position -/
+theorem oneshot_even (P : Nat) (file : Bytes) (hP : P % 2 = 0) :
+    ∃ s, write ⟨some P, 0, 0, 0, false⟩ file = .ok s ∧ sumVal s = peChecksum file P := by
+  refine ⟨_, rfl, ?_⟩
+  have hpl : (if file.length % 2 ≠ 0 then file ++ [0] else file).length % 2 = 0 := by
+    split <;> (try simp only [List.length_append, List.length_cons, List.length_nil]) <;> omega
+  simp only [sumVal, peChecksum, wordSum]
+  rw [loop_spec_even P 0 0 _ hP rfl hpl (by omega),
+    words_of_padded (zeroField P 0) file (zeroField_pad P 0) (zeroField_length P 0)]
+  have hb := wordSum_bound (words16 (zeroField P 0 file)) 0 (by omega) (words16_lt _)
+  generalize List.foldl (fun acc w => eac (acc + w)) 0 (words16 (zeroField P 0 file)) = S at hb ⊢
+  simp only [eac]
+  omega
+
+/-- one-shot write when the field position is odd or absent: nothing is excluded -/
+theorem oneshot_plain (ck : Option Nat) (file : Bytes) (hck : ∀ p, ck = some p → p % 2 = 1) :
+    ∃ s, write ⟨ck, 0, 0, 0, false⟩ file = .ok s ∧ sumVal s = peChecksumPlain file := by
+  refine ⟨_, rfl, ?_⟩
+  have hpl : (if file.length % 2 ≠ 0 then file ++ [0] else file).length % 2 = 0 := by
+    split <;> (try simp only [List.length_append, List.length_cons, List.length_nil]) <;> omega
+  have hnone : loop ck 0 0 (if file.length % 2 ≠ 0 then file ++ [0] else file)
+      = loop none 0 0 (if file.length % 2 ≠ 0 then file ++ [0] else file) := by
+    cases ck with
+    | none => rfl
+    | some p =>
+      have := hck p rfl
+      exact loop_skip p 0 0 _ (by intro x _ _ h3; omega)
+  simp only [sumVal, peChecksumPlain, wordSum]
+  have hwp : words16 (if file.length % 2 ≠ 0 then file ++ [0] else file) = words16 file := by
+    split
+    · next h => exact words16_pad file (by omega)
+    · rfl
+  rw [hnone, loop_none_spec 0 0 _ hpl (by omega), hwp]
+  have hb := wordSum_bound (words16 file) 0 (by omega) (words16_lt _)
+  generalize List.foldl (fun acc w => eac (acc + w)) 0 (words16 file) = S at hb ⊢
+  simp only [eac]
+  omega
 
 end Relic.PEChecksum
